@@ -94,6 +94,38 @@ def check(case):
         P = B.build(spied, env)
     except Exception as e:
         raise Violation('construction-raised', f'{progs.show(node)}: {observe.describe_exc(e)}')
+    if case.get('user_stage'):
+        # a stage written by a user: a Dataset subclass with the minimal interface (its __iter__ takes no with_key)
+        class UserStage(lazy_dataset.Dataset):
+            def __init__(self, input_dataset):
+                self.input_dataset = input_dataset
+
+            def copy(self, freeze=False):
+                return self.__class__(self.input_dataset.copy(freeze=freeze))
+
+            @property
+            def indexable(self):
+                return self.input_dataset.indexable
+
+            @property
+            def ordered(self):
+                return self.input_dataset.ordered
+
+            def __len__(self):
+                return len(self.input_dataset)
+
+            def __iter__(self):
+                for x in self.input_dataset:
+                    yield x
+
+            def keys(self):
+                return self.input_dataset.keys()
+
+            def __getitem__(self, item):
+                if isinstance(item, (int, np.integer, str)):
+                    return self.input_dataset[item]
+                return super().__getitem__(item)
+        P = UserStage(P)
     for spy in getattr(env, 'spies', {}).values():
         spy.calls = 0  # eager stages (sort, eager filter) iterate at construction time, before the wrapper exists
     before = snapshot(P)
@@ -282,6 +314,8 @@ def st_case(draw):
                 n['op'] in ('prefetch', 'parmap') for n in progs.walk(node)):
             mode = 'full'
     case = {'ast': node, 'mode': mode}
+    if draw(st.integers(0, 5)) == 0:
+        case['user_stage'] = True
     if mode == 'partial':
         case['k'] = draw(st.integers(0, ev(node).n + 1))
     return case
@@ -299,6 +333,9 @@ def run_shard(tier, idx, nshards, rec, known):
         nt = bool(done) and progs.size(node) >= 3 and (bool(ops & set(progs.NARY)) or case['mode'] in ('partial', 'dual')
                                                       or m.has_raise or 'catch' in ops)
         cls = progcheck.classes_of(node, m) | {'mode:' + case['mode']}
+        if case.get('user_stage'):
+            cls = cls | {'user-stage-on-top'}
         rec.case({'program': progs.show(node), 'mode': case['mode'], 'k': case.get('k'), 'ast': node,
+                  'user_stage': bool(case.get('user_stage')),
                   'profiling_nodes_checked': c.get('_checked_nodes', 0)}, nt, cls, size=progs.size(node))
     return [drive(one, st_case(), N[tier], rec, known, seed() * 1000 + idx)]
